@@ -218,6 +218,11 @@ def runLine (ts : List String) : Verdict :=
     .viol s!"C14:panic the {which} message builder panicked on a record ({(ts.dropWhile (· != "data")).getD 1 "?"} samples)"
   | _ =>
   match ts with
+  | ["conc", "iters", n, "badrec", b1, "badsum", b2, "frame1", _, "frame2", _] =>
+    -- the two builders run concurrently in dastard (record port and summary port): each must return what
+    -- it returns when called alone
+    if b1 == "0" && b2 == "0" then .ok ["concurrent-builders"]
+    else .viol s!"C14:concurrent-builders with the record builder and the summary builder running at the same time ({n} calls each) {b1} record messages and {b2} summary messages differed from what the same builder returns alone for the same record"
   | "wire" :: rest =>
     match P.run parseWire rest with
     | .error e => .bad e
